@@ -1,6 +1,7 @@
 // C09 wrappers: format_data_string / parse_data_string / format_data (Strings.cc)
 #include "wrap.hh"
 #include "Strings.cc"
+#include "Filesystem.cc" // only so that the native build links (load_file); unreachable with ALLOW_FILES off
 using namespace phosg;
 
 static inline std::string w_str(const uint8_t* p, size_t n) {
